@@ -829,6 +829,11 @@ impl<T: Flt> Runner<T> {
     }
 
     fn do_bad(&mut self, _idx: usize, rec: &mut StepRec, call: &BadCall, path: Path) {
+        if let BadCall::ForeignUnwind { seed } = call {
+            foreign_unwind::<T>(*seed);
+            rec.res = StepRes::Skipped;
+            return;
+        }
         let pre = rec.pre;
         let need = pre.in_next;
         let ch = self.cfg.channels;
@@ -874,6 +879,7 @@ impl<T: Flt> Runner<T> {
                     applicable = false;
                 }
             }
+            BadCall::ForeignUnwind { .. } => unreachable!(),
             BadCall::OutShort { ch: c, missing } => {
                 if !active.is_empty() && pre.out_next > 0 && !path.is_wrapper() {
                     let c = active[*c as usize % active.len()];
@@ -957,6 +963,65 @@ impl<T: Flt> Runner<T> {
         self.trace.cross = self.cross.as_ref().map(|p| p.lock().unwrap().clone());
         self.trace
     }
+}
+
+/// User buffer type whose accessor panics on the n-th access.
+struct Boom<T> {
+    v: Vec<T>,
+    left: std::cell::Cell<u32>,
+}
+
+impl<T> Boom<T> {
+    fn tick(&self) {
+        let l = self.left.get();
+        if l == 0 {
+            panic!("user buffer accessor unwinds (injected)");
+        }
+        self.left.set(l - 1);
+    }
+}
+
+impl<T> AsRef<[T]> for Boom<T> {
+    fn as_ref(&self) -> &[T] {
+        self.tick();
+        &self.v
+    }
+}
+
+impl<T> AsMut<[T]> for Boom<T> {
+    fn as_mut(&mut self) -> &mut [T] {
+        self.tick();
+        &mut self.v
+    }
+}
+
+/// The `ForeignUnwind` fault: see `BadCall::ForeignUnwind`.
+pub fn foreign_unwind<T: Flt>(seed: u32) {
+    use rubato::Resampler;
+    let mut rng = crate::rng::Rng::new(crate::rng::mix(seed as u64 ^ 0xB00A));
+    let channels = rng.usize_in(1, 4);
+    let chunk = *rng.pick(&[8usize, 64, 300, 1024, 5000]);
+    let built = catch_unwind(AssertUnwindSafe(|| rubato::FastFixedIn::<T>::new(1.0, 2.0, rubato::PolynomialDegree::Linear, chunk, channels)));
+    let mut rs = match built {
+        Ok(Ok(r)) => r,
+        _ => return,
+    };
+    let out_n = rs.output_frames_max();
+    let in_fail = rng.chance(0.3);
+    // input longer or shorter than a chunk, loud so that any residue is visible
+    let in_len = if rng.chance(0.5) { rng.usize_in(1, chunk) } else { chunk + rng.usize_in(0, chunk) };
+    let budget_in = if in_fail { rng.below(4) as u32 } else { u32::MAX };
+    let budget_out = if in_fail { u32::MAX } else { rng.below(4) as u32 };
+    let x: Vec<Boom<T>> = (0..channels).map(|c| Boom { v: (0..in_len).map(|k| T::from64(3.0 + crate::rng::noise(seed as u64, c, k as u64))).collect(), left: std::cell::Cell::new(budget_in) }).collect();
+    let mut y: Vec<Boom<T>> = (0..channels).map(|_| Boom { v: vec![T::zero(); out_n], left: std::cell::Cell::new(budget_out) }).collect();
+    let partial = rng.chance(0.8);
+    let _ = catch_unwind(AssertUnwindSafe(|| {
+        if partial {
+            let _ = rs.process_partial_into_buffer(Some(&x[..]), &mut y[..], None);
+        } else if in_len >= chunk {
+            let _ = rs.process_into_buffer(&x[..], &mut y[..], None);
+        }
+    }));
 }
 
 impl Trace {
